@@ -10,15 +10,16 @@ Init == i \in 1..Len(Rec)
 Next == FALSE /\ UNCHANGED i
 
 BuilderBad(e) ==
-  LET ops == Built(e.calls)
-      m == e.transform.m  mden == e.transform.mden
+  LET m == e.transform.m  mden == e.transform.mden
       exactT == 1024 % (e.den * mden) = 0
       w1 == IF e.set_evenodd THEN "EvenOdd" ELSE "NonZero"
+      arcs == HasArc(e.calls)
   IN IF e.finish_winding # "NonZero" THEN "finish-winding"
-     ELSE IF e.built # ScaleOps(ops, e.den) THEN "built-ops"
+     ELSE IF arcs /\ ~MatchBuilt(e.calls, e.built, e.den) THEN "built-ops"
+     ELSE IF ~arcs /\ e.built # ScaleOps(Built(e.calls), e.den) THEN "built-ops"
      ELSE IF e.transformed_winding # w1 THEN "transform-winding"
-     ELSE IF Kinds(e.transformed) # Kinds(ops) THEN "transform-structure"
-     ELSE IF exactT /\ e.transformed # MapOps(ops, m, e.den, mden) THEN "transform-points"
+     ELSE IF Kinds(e.transformed) # Kinds(e.built) THEN "transform-structure"
+     ELSE IF ~arcs /\ exactT /\ e.transformed # MapOps(Built(e.calls), m, e.den, mden) THEN "transform-points"
      ELSE "ok"
 
 StartQuad(d) == IF d[1] > 0 /\ d[2] >= 0 THEN 0 ELSE IF d[1] <= 0 /\ d[2] > 0 THEN 1
